@@ -481,3 +481,136 @@ func punctuationPairs(r *RNG, s string, all []string) []string {
 	}
 	return out
 }
+
+// ---------- families added after the fourth wave of seeded changes ----------
+
+// joinerSwaps: s with one single-byte joiner replaced by each other joiner byte the candidates use
+// (1.0.0-a.b <-> 1.0.0-a-b <-> 1.0.0-a_b): the orders of two texts that differ only in a joiner
+// are where byte-wise shortcuts and identifier-wise comparison part.
+func joinerSwaps(r *RNG, s string, all []string) []string {
+	seen := map[byte]bool{}
+	var ps []byte
+	for _, c := range all {
+		for i := 0; i < len(c); i++ {
+			if tokClass(c[i]) == 2 && c[i] > ' ' && c[i] < 0x7f && !seen[c[i]] {
+				seen[c[i]] = true
+				ps = append(ps, c[i])
+			}
+		}
+	}
+	var pos []int
+	for i := 1; i+1 < len(s); i++ {
+		if tokClass(s[i]) == 2 && tokClass(s[i-1]) != 2 && tokClass(s[i+1]) != 2 {
+			pos = append(pos, i)
+		}
+	}
+	if len(pos) == 0 || len(ps) == 0 {
+		return nil
+	}
+	var out []string
+	// the last joiners are where identifiers live: take the last two positions and a random one
+	cand := []int{pos[len(pos)-1], pos[r.Intn(len(pos))]}
+	if len(pos) > 1 {
+		cand = append(cand, pos[len(pos)-2])
+	}
+	for _, i := range cand {
+		for _, p := range ps {
+			if p != s[i] {
+				out = append(out, s[:i]+string(p)+s[i+1:])
+			}
+		}
+	}
+	return out
+}
+
+// sameLengthTokenVariants: s with the last character of one alphanumeric token (preferably the last
+// token: hashes, revisions, tags) changed, the token's length kept: texts that agree everywhere
+// except in a part a shortcut may not look at.
+func sameLengthTokenVariants(r *RNG, s string) []string {
+	ts := tokens(s)
+	var idx []int
+	for i, t := range ts {
+		if tokClass(t[0]) != 2 && len(t) >= 1 {
+			idx = append(idx, i)
+		}
+	}
+	if len(idx) == 0 {
+		return nil
+	}
+	var out []string
+	for _, i := range []int{idx[len(idx)-1], idx[r.Intn(len(idx))]} {
+		t := ts[i]
+		for _, repl := range []byte{'a', 'b', 'f', '0', '1', '9'} {
+			if t[len(t)-1] != repl {
+				c := append([]string{}, ts...)
+				c[i] = t[:len(t)-1] + string(repl)
+				out = append(out, strings.Join(c, ""))
+			}
+		}
+		if len(t) >= 4 {
+			// the whole token replaced by another of the same length
+			c := append([]string{}, ts...)
+			c[i] = strings.Repeat("a", len(t))
+			out = append(out, strings.Join(c, ""))
+			c = append([]string{}, ts...)
+			c[i] = strings.Repeat("b", len(t))
+			out = append(out, strings.Join(c, ""))
+		}
+	}
+	return out
+}
+
+// longWordVariants: an alphabetic token replaced by words of 8 to 17 letters in three letter cases
+// (rules keyed on the length of the longest known word stop applying beyond it).
+func longWordVariants(r *RNG, s string) []string {
+	words := []string{"experimental", "incubating", "prerelease", "milestonex", "snapshots", "abcdefgh", "abcdefghijklmnopq"}
+	w := words[r.Intn(len(words))]
+	forms := []string{w, strings.ToUpper(w), strings.ToUpper(w[:1]) + w[1:]}
+	ts := tokens(s)
+	var out []string
+	done := false
+	for i, t := range ts {
+		if tokClass(t[0]) == 1 && !done {
+			for _, f := range forms {
+				c := append([]string{}, ts...)
+				c[i] = f
+				out = append(out, strings.Join(c, ""))
+			}
+			done = true
+		}
+	}
+	j := []string{"-", ".", "_", "~", "+"}[r.Intn(5)]
+	for _, f := range forms {
+		out = append(out, s+j+f, s+j+f+"2")
+	}
+	return out
+}
+
+// overflowSums: dotted tuples extending base whose extra components add up to 2^32 or 2^64 exactly
+// (4 x 2^62, 2 x (2^63-1) + 2, 4 x 2^30, 2 x 2^31): "is the rest all zero" tests written as a sum or
+// an OR over machine words wrap to zero there.
+func overflowSums(base, sep string) []string {
+	fams := [][]string{
+		{"4611686018427387904", "4611686018427387904", "4611686018427387904", "4611686018427387904"},
+		{"0", "9223372036854775807", "9223372036854775807", "2"},
+		{"1073741824", "1073741824", "1073741824", "1073741824"},
+		{"2147483648", "2147483648"},
+		{"4294967296", "0", "4294967296"},
+	}
+	var out []string
+	for _, f := range fams {
+		out = append(out, base+sep+strings.Join(f, sep))
+	}
+	return out
+}
+
+// markerMetadata: build metadata / local labels made of the words and shapes that pre-release
+// detection looks for (a label is opaque: 1.5.0+g1a2b3c4 is a final release).
+func markerMetadata(r *RNG, s string) []string {
+	if strings.Contains(s, "+") {
+		return nil
+	}
+	labels := []string{"+g1a2b3c4", "+1.a1", "+7.rc1", "+ubuntu.1.dev2", "+rc1", "+alpha", "+1.b2", "+dev", "+c3", "+x", "+X.1", "+beta.x"}
+	perm := r.Perm(len(labels))
+	return []string{s + labels[perm[0]], s + labels[perm[1]], s + labels[perm[2]]}
+}
